@@ -376,21 +376,31 @@ def translate_tables():
         return
     exe = os.path.join(BIN, "translate")
     os.makedirs(BIN, exist_ok=True)
+    # checks of several properties may run side by side: private executable and output directory per process
+    exe = exe + ".%d" % os.getpid()
     rc, out, _ = sh(["go", "build", "-o", exe, "."], cwd=tdir, timeout=600, env={"GOFLAGS": "-mod=mod"})
     if rc != 0:
         raise CheckError("translator build failed:\n" + out)
     gen = os.path.join(COQ, "Gen")
-    tmp = os.path.join(WORK, "gen_tmp")
+    tmp = os.path.join(WORK, "gen_tmp.%d" % os.getpid())
     shutil.rmtree(tmp, ignore_errors=True)
     os.makedirs(tmp)
-    rc, out, _ = sh([exe, REPO, tmp], timeout=120)
-    if rc != 0:
-        raise CheckError("translator failed on /repo:\n" + out)
-    os.makedirs(gen, exist_ok=True)
-    for f in os.listdir(tmp):
-        a, b = os.path.join(tmp, f), os.path.join(gen, f)
-        if not os.path.exists(b) or open(a).read() != open(b).read():
-            shutil.copy(a, b)
+    try:
+        rc, out, _ = sh([exe, REPO, tmp], timeout=120)
+        if rc != 0:
+            raise CheckError("translator failed on /repo:\n" + out)
+        os.makedirs(gen, exist_ok=True)
+        for f in os.listdir(tmp):
+            a, b = os.path.join(tmp, f), os.path.join(gen, f)
+            if not os.path.exists(b) or open(a).read() != open(b).read():
+                shutil.copy(a, b + ".new.%d" % os.getpid())
+                os.replace(b + ".new.%d" % os.getpid(), b)
+    finally:
+        shutil.rmtree(tmp, ignore_errors=True)
+        try:
+            os.remove(exe)
+        except OSError:
+            pass
 
 
 _kf = None
@@ -515,6 +525,13 @@ def coqchk_step(ctx):
     ctx.coverage["coqchk"] = {"cmd": "coqchk -silent -o -Q coq OC OC.Properties.%s" % ctx.prop, "accepted": rc == 0,
                               "axioms_of_closure": axioms, "type_in_type": tit, "unsafe_fixpoints": unsafe,
                               "assumed_positivity": pos, "wall_s": round(time.time() - t0, 1)}
+    try:
+        # kept beside the evidence (which the next quick run rewrites): what the independent checker said last time
+        os.makedirs(os.path.join(ROOT, "coqchk"), exist_ok=True)
+        json.dump(dict(ctx.coverage["coqchk"], property=ctx.prop, checked_at=time.strftime("%Y-%m-%dT%H:%M:%SZ", time.gmtime())),
+                  open(os.path.join(ROOT, "coqchk", ctx.prop + ".json"), "w"), indent=1)
+    except Exception:
+        pass
     if not ok:
         ctx.proof_ok = False
         ctx.proof_log = "coqchk does not accept the compiled closure of Properties/%s.v (rc=%s, foreign axioms %s):\n%s" % (
